@@ -42,10 +42,26 @@ var initAllowPrefixes = []string{
 	"io/fs", "internal/oserror", "syscall", "math",
 }
 
+// initSkipped: packages whose initialisers are never evaluated (runtime internals).
+func (e *Engine) initSkipped(pkg *ssa.Package) bool {
+	p := pkg.Pkg.Path()
+	for _, pre := range []string{"runtime", "internal/", "reflect", "syscall", "os", "unsafe", "sync", "time", "errors",
+		"google.golang.org/protobuf/", "google.golang.org/grpc", "github.com/prometheus/", "crypto/", "net", "log", "fmt",
+		"go.opentelemetry.io/", "golang.org/x/", "github.com/golang/protobuf", "encoding/json", "testing", "regexp", "math/rand", "hash/"} {
+		if p == pre || strings.HasPrefix(p, pre) {
+			if p == "google.golang.org/protobuf/encoding/protowire" || p == "google.golang.org/protobuf/internal/errors" || p == "google.golang.org/grpc/codes" {
+				return false
+			}
+			return true
+		}
+	}
+	return false
+}
+
 func (e *Engine) initAllowed(pkg *ssa.Package) bool {
 	p := pkg.Pkg.Path()
 	if strings.Contains(p, "/pkg/proto/") {
-		return false // generated protobuf registration code (reflection); messages are plain structs to the engine
+		return false // generated protobuf code: evaluated in tolerant mode (registration calls are skipped)
 	}
 	for _, a := range initAllowPrefixes {
 		if p == a || (strings.HasSuffix(a, "/") && strings.HasPrefix(p, a)) {
@@ -303,7 +319,10 @@ func (e *Engine) runPath(h *HarnessSpec, solver *Solver, prefix []Decision, lim 
 				pr.Status = "ok"
 				return
 			}
-			in.reportViolation("panic", "panic: "+r.msg, in.panicSite())
+			in.reportViolation("panic", "panic: "+r.msg, panicSiteOf(r.stack, in.panicSite()))
+			if n := len(pr.Violations); n > 0 && len(r.stack) > 0 {
+				pr.Violations[n-1].Stack = r.stack
+			}
 			pr.Status = "ok"
 		default:
 			pr.Status = "error"
@@ -366,6 +385,19 @@ func trimStack(s string) string {
 }
 
 type violationStop struct{}
+
+// panicSiteOf returns the innermost repository frame of a recorded panic stack.
+func panicSiteOf(stack []string, fallback string) string {
+	for _, f := range stack {
+		if strings.Contains(f, "github.com/buildbarn/bb-storage") && !strings.Contains(f, "verifnd") {
+			if i := strings.Index(f, " (called"); i > 0 {
+				return f[:i]
+			}
+			return f
+		}
+	}
+	return fallback
+}
 
 func (in *Interp) panicSite() string {
 	// innermost repo frame
